@@ -530,6 +530,8 @@ def validate_trace(ctx, module, trace_path, constants, tag, timeout=900, max_rec
                     viol.append((pp, tup))
                 elif tup and tup[0] == "SUMMARY":
                     summ.append(tup)
+                elif tup and tup[0] == "DRIFT":
+                    ctx.drift("%s: recorded execution differs from the L-model at record %s (%s)" % (tag, tup[1], tup[2:]))
             with ctx.lock:
                 total[0] += nrec
         return job
